@@ -46,6 +46,18 @@ def key_probe(ctx, w, where):
     return probes
 
 
+def install_probe(ctx):
+    """probe the real keys whenever a hop was added anywhere (the circuit may be gone again later)"""
+    seen = {}
+
+    def on_step(w, ev):
+        n = sum(len(c.hops) for o in w.names for c in w.ov[o].circuits.values())
+        if seen.get(id(w)) != n:
+            seen[id(w)] = n
+            key_probe(ctx, w, "%s seed-world after %s" % (ev["a"], {k: v for k, v in ev.items() if k not in ("post", "now")}))
+    R.ON_STEP = on_step
+
+
 def scripted_mangle(ctx, seed, goal, hop, how, dup):
     """build a circuit; when the answer for hop `hop` is in flight as a plaintext created cell, manipulate it"""
     w = R.world("line4", seed)
@@ -90,6 +102,7 @@ def run(tier, seed, replay=None):
     ctx.assumptions += ["X25519 / HMAC / HKDF idealised in the spec; the probe compares real key bytes",
                         "encrypted extended answers cannot be rewritten by a network attacker (only the plaintext created leg)",
                         "a malicious relay ON the path is represented by manipulations of the created it forwards"]
+    install_probe(ctx)
     bg = K.Background(["Onion_c08_a.cfg", "Onion_c08_b.cfg", "Onion_c08_t.cfg", "Onion_c08_a3.cfg"],
                       [("Onion_c08_noident.cfg", "AnswerMustMatch",
                         "spec without the identifier comparison accepts a stale answer (AnswerMustMatch violated)")])
